@@ -12,7 +12,7 @@ R08c  MergeLinkFiles, per path of its loop: add / merge / hide as documented (se
 R08d  mergeentries overrides only the fields a block sets
 R08e  .cap files: Type=X or - hides, anything else overrides; unreadable .cap files are ignored
 R08f  Host=+ / Port=+ leave the field unset, which every renderer reads as "this server"
-R08g  the text of link files: getLinkItem() evaluated on 12 scripted blocks (Path= forms, Host=+/Port=+, Numb=,
+R08g  the text of link files: getLinkItem() evaluated on scripted blocks (Path= forms, Host=+/Port=+, Numb=,
       Abstract= continuation, comments, .cap files) must give the documented entry
 """
 
@@ -598,6 +598,13 @@ LINKFILE_CASES = [
      {"selector": "/SB/file.txt", "name": "Cap title", "num": 2}, "stop"),
     ("no Path= line: no entry", None, ["Name=Nothing", ""], None, "continue"),
     ("negative number (sorts last)", None, ["Path=./z", "Numb=-2", ""], {"selector": "/SB/z", "needsmerge": True, "num": -2}, "continue"),
+    ("every field given, number and abstract last", None,
+     ["Name=Full", "Type=0", "Path=/full/doc", "Host=other.example", "Port=70", "Numb=3", "Abstract=About it", ""],
+     {"name": "Full", "type": "0", "selector": "/full/doc", "host": "other.example", "port": 70, "num": 3, "ea:ABSTRACT": "About it"}, "continue"),
+    ("every field given for this server, number last", None, ["Type=1", "Name=Here", "Host=+", "Port=+", "Path=./sub", "Numb=-1", ""],
+     {"name": "Here", "type": "1", "selector": "/SB/sub", "needsmerge": True, "num": -1}, "continue"),
+    (".cap file naming every field, number last", "/SB/file.txt", ["Name=Cap", "Type=0", "Host=+", "Port=+", "Numb=4"],
+     {"selector": "/SB/file.txt", "name": "Cap", "type": "0", "num": 4}, "stop"),
     ("unparsable number and port are ignored", None, ["Path=/q", "Numb=first", "Host=other.example", "Port=gopher", ""],
      {"selector": "/q", "host": "other.example"}, "continue"),
 ]
